@@ -40,6 +40,7 @@ def _als(case, lean):
     if case.get("extra_user"):
         b = DatasetBuilder(ds); b.add_entities("user", [88888]); ds = b.build()       # a user without interactions
     regs = {"user": case["reg_user"], "item": case["reg_item"]}
+    if case["reg_user"] == case["reg_item"] and case.get("seed", 0) % 2: regs = case["reg_user"]          # one number for both sides says the same thing
     m = (BiasedMFScorer(embedding_size=nf, epochs=case["epochs"], regularization=regs, damping=case["damping"]) if explicit
          else ImplicitMFScorer(embedding_size=nf, epochs=case["epochs"], regularization=regs, weight=case["weight"], use_ratings=False))
     # observe the training from inside: the initial matrices and the state around every half-step
